@@ -41,6 +41,9 @@ Check (C18_index_none_not_grouped : forall (limit : nat) (f : file),
   Forall (fun l => 1 <= snd l) f -> index_chroms limit f = Ok None -> ~ grouped f).
 Check (C18_index_never_none : forall (limit : nat) (f : file),
   Forall (fun l => 1 <= snd l) f -> index_chroms limit f <> Ok None).
+Check (C18_index_views_concat : forall (limit : nat) (f : file) (ix : list entry),
+  Forall (fun l => 1 <= snd l) f ->
+  index_chroms limit f = Ok (Some ix) -> concat (view_streams f ix) = f).
 Check (C18_groupedb_iff : forall (f : file), groupedb f = true <-> grouped f).
 (* the reference notions the statements rest on, pinned as well *)
 Check (eq_refl : grouped = fun f : file =>
